@@ -279,6 +279,30 @@ def run_harness(domain, lines, timeout=3000):
     return res
 
 
+def panic_site(domain, line):
+    """Re-runs one harness line with the `@` prefix: returns (file relative to the repo, line, message) of the
+    abort it ends in, or None when it does not abort."""
+    p = subprocess.run([HARNESS_BIN, domain], input="@" + line + "\n", capture_output=True, text=True,
+                       timeout=600, env=env_offline())
+    toks = p.stdout.split()
+    try:
+        v = [int(t) for t in toks]
+        i = v.index(-7)
+        ln = v[i + 1]
+        n = v[i + 2]
+        f = bytes(v[i + 3:i + 3 + n]).decode("utf-8", "replace")
+        m = v[i + 3 + n]
+        msg = bytes(v[i + 4 + n:i + 4 + n + m]).decode("utf-8", "replace")
+    except (ValueError, IndexError):
+        return None
+    rp = os.path.realpath(REPO) + "/"
+    if f.startswith(rp):
+        f = f[len(rp):]
+    elif f.startswith(REPO + "/"):
+        f = f[len(REPO) + 1:]
+    return f, ln, msg
+
+
 _TOK = re.compile(r"\[|\]|-?\d+")
 
 
